@@ -148,6 +148,8 @@ func C09GenericTypeRule(full int) {
 	where := 0 // record field; full: alias target, protocol step as well
 	if full == 1 {
 		where = verifChoose("where", 3)
+	} else if rule == rStreamMisplaced {
+		where = 2 * verifChoose("where", 2) // a step is the one place where a stream may legally appear: always covered
 	}
 	verifOut("rule", typeRuleNames[rule])
 	verifOut("carrier", carrierNames[carrier])
@@ -156,6 +158,11 @@ func C09GenericTypeRule(full int) {
 	n, b, file := main, bMain, "main/model.yml"
 	if inImport {
 		n, b, file = dep, bDep, "dep/dep.yml"
+	}
+	if rule == rStreamMisplaced && where == 2 {
+		// `step: Lib.Box<!stream {items: int}>`: accepted before fix e37f37f (validateStreams only looked inside a
+		// step whose own type is a GeneralizedType); keyed separately in parts/registry.py:c09_key
+		verifOut("case", "stream-in-type-argument-of-step")
 	}
 	t := carry(b, n, carrier, badType(b, rule))
 	switch where {
